@@ -343,7 +343,8 @@ def check(tier, seed):
         return None
 
     return R.finish(RULE, search=search,
-                    partial_note="same-or-missing, truthful reports and atomic failure are theorems; retry convergence rests on the harness loop")
+                    partial_note="same-or-missing (reads and writes), truthful reports, atomic failure and retry convergence (get / traverse; set / delete on "
+                                 "non-pruning tries and on the exact stores of pruning tries) are theorems; calls inside squash_changes rest on correspondence")
 
 
 def replay(payload):
